@@ -686,7 +686,7 @@ func Max(numbers ...cty.Value) (cty.Value, error) {
 //
 // If an infinity is passed to Int, an error is returned.
 func Int(num cty.Value) (cty.Value, error) {
-	if num == cty.PositiveInfinity || num == cty.NegativeInfinity {
+	if v, _ := num.Unmark(); v.IsKnown() && !v.IsNull() && v.Type() == cty.Number && v.AsBigFloat().IsInf() {
 		return cty.NilVal, fmt.Errorf("can't truncate infinity to an integer")
 	}
 	return IntFunc.Call([]cty.Value{num})
